@@ -222,7 +222,11 @@ class WebSocketApp:
             return
         while not self.stop_ping.wait(self.ping_interval) and self.keep_running is True:
             if self.sock:
-                self.last_ping_tm = time.time()
+                # Restart the pong clock only if the previous ping was
+                # answered: an unanswered ping must stay the reference for
+                # the timeout check, or every new ping would hide it.
+                if not self.last_ping_tm or self.last_pong_tm >= self.last_ping_tm:
+                    self.last_ping_tm = time.time()
                 try:
                     _logging.debug("Sending ping")
                     self.sock.ping(self.ping_payload)
